@@ -13,6 +13,8 @@ package main
 //   applySkipsMissing : expr.Aggregator.Apply consumes `v` only under `if !v.IsMissing()`
 //   liftedOps : the dag op types of the `switch op := ops[egress].(type)` in
 //          optimizer.liftIntoParPaths (the operators copied into scatter legs), in order
+//   sortLiftGuards : the conditions of the top-level `if … { return }` statements of the
+//          dag.Sort case of liftIntoParPaths (when a sort is NOT copied into the legs)
 //   sortedInputKeyRanges : the expressions the two loops range over that decide whether a
 //          summarize is told its input is sorted (optimizer.propagateSortKeyOp's dag.Summarize
 //          case, optimizer.isKeyOfSummarize): only the FIRST group-by key may count
@@ -233,10 +235,29 @@ func genC10(repo string) (string, error) {
 		}
 		return false
 	})
+	// the top-level `if cond { return }` guards of the dag.Sort case: when a sort is NOT lifted
+	var sortGuards []string
+	ast.Inspect(lf.Body, func(n ast.Node) bool {
+		cc, ok := n.(*ast.CaseClause)
+		if !ok || len(cc.List) != 1 || renderExpr(pf, cc.List[0]) != "*dag.Sort" {
+			return true
+		}
+		for _, st := range cc.Body {
+			is, ok := st.(*ast.IfStmt)
+			if !ok || is.Else != nil || is.Init != nil || len(is.Body.List) == 0 {
+				continue
+			}
+			if r, ok := is.Body.List[len(is.Body.List)-1].(*ast.ReturnStmt); ok && len(r.Results) == 0 && len(is.Body.List) == 1 {
+				sortGuards = append(sortGuards, renderExpr(pf, is.Cond))
+			}
+		}
+		return false
+	})
 	if !found || len(lifted) == 0 {
 		return "", fmt.Errorf("%s: liftIntoParPaths: `switch op := ops[egress].(type)` not found", pf.pos(lf))
 	}
 	fmt.Fprintf(&b, "def liftedOps : List String := %s\n", leanStrList(lifted))
+	fmt.Fprintf(&b, "def sortLiftGuards : List String := %s\n", leanStrList(sortGuards))
 
 	// ---- which group-by keys make the optimizer declare a summarize's input sorted -------
 	// (the Aggregator streams on its first key only: fix 32e95e058)
